@@ -105,7 +105,7 @@ static struct conn conns[MAXC];
 struct hdrspec { int kind; /* 0 add hdr, 1 add footer, 2 del hdr */ uint8_t *n, *v; };
 struct resp {
   int used; char kind[16]; unsigned code; size_t size; unsigned flags;
-  size_t cbmax; int cbnr; int cberr_at; /* content callback: max per call, not-ready count, error at pos (-1) */
+  size_t cbmax; int cbnr; int cberr_at; int cbeos_at; /* cbeos_at: END_OF_STREAM from this position on although more was announced (-1 never); */ /* content callback: max per call, not-ready count, error at pos (-1) */
   int iovn;            /* number of elements of an iovec response (default 3) */
   struct hdrspec h[16]; int nh;
 };
@@ -411,6 +411,8 @@ static ssize_t content_cb (void *cls, uint64_t pos, char *buf, size_t max)
   if (x->calls <= r->cbnr) { out ("reader rid=%d pos=%" PRIu64 " -> 0", x->rid, pos); return 0; }
   if (r->cberr_at >= 0 && pos >= (uint64_t) r->cberr_at)
   { out ("reader rid=%d pos=%" PRIu64 " -> err", x->rid, pos); return MHD_CONTENT_READER_END_WITH_ERROR; }
+  if (r->cbeos_at >= 0 && pos >= (uint64_t) r->cbeos_at && pos < r->size)
+  { out ("reader rid=%d pos=%" PRIu64 " -> eos-early", x->rid, pos); return MHD_CONTENT_READER_END_OF_STREAM; }
   if (pos >= r->size) { out ("reader rid=%d pos=%" PRIu64 " -> eos", x->rid, pos); return MHD_CONTENT_READER_END_OF_STREAM; }
   n = r->size - (size_t) pos;
   if (n > max) n = max;
@@ -438,7 +440,7 @@ static struct MHD_Response *make_resp (int rid)
   struct MHD_Response *m = NULL;
   size_t i;
   if (!r->used) { /* default response */
-    r->used = 1; strcpy (r->kind, "copy"); r->code = 200; r->size = 5; r->cberr_at = -1; }
+    r->used = 1; strcpy (r->kind, "copy"); r->code = 200; r->size = 5; r->cberr_at = -1; r->cbeos_at = -1; }
   if (!strcmp (r->kind, "static") || !strcmp (r->kind, "copy") || !strcmp (r->kind, "freecb"))
   {
     char *b = (char *) malloc (r->size ? r->size : 1);
@@ -957,7 +959,7 @@ int main (void)
     {
       int rid = atoi (l.w[1]); struct resp *r;
       if (rid < 0 || rid >= MAXRESP) { out ("bad-op"); continue; }
-      r = &resps[rid]; memset (r, 0, sizeof(*r)); r->used = 1; strcpy (r->kind, "copy"); r->code = 200; r->size = 5; r->cberr_at = -1;
+      r = &resps[rid]; memset (r, 0, sizeof(*r)); r->used = 1; strcpy (r->kind, "copy"); r->code = 200; r->size = 5; r->cberr_at = -1; r->cbeos_at = -1;
       for (i = 2; i < l.n; i++)
       {
         if (kv (l.w[i], "kind", &v)) strncpy (r->kind, v, sizeof(r->kind) - 1);
@@ -967,6 +969,7 @@ int main (void)
         else if (kv (l.w[i], "cbmax", &v)) r->cbmax = (size_t) atol (v);
         else if (kv (l.w[i], "cbnr", &v)) r->cbnr = atoi (v);
         else if (kv (l.w[i], "cberr", &v)) r->cberr_at = atoi (v);
+        else if (kv (l.w[i], "cbeos", &v)) r->cbeos_at = atoi (v);
         else if (kv (l.w[i], "iovn", &v)) r->iovn = atoi (v);
         else if ((kv (l.w[i], "h", &v) || kv (l.w[i], "f", &v) || kv (l.w[i], "d", &v)) && r->nh < 16)
         {
